@@ -414,8 +414,10 @@ def finish(ctx, level="proof", extra_assumptions=()):
         wall_s=round(time.time() - ctx.t0, 2),
         violations=len(reported) + (1 if broken and not violations else 0),
     )
-    os.makedirs(os.path.join(VERIF, "evidence"), exist_ok=True)
-    with open(os.path.join(VERIF, "evidence", ctx.pid + ".json"), "w") as handle:
+    # runs against a scratch copy of the repository (POLYPLY_REPO) must not overwrite real evidence
+    evdir = "evidence" if os.path.realpath(REPO) == "/repo" else "evidence_scratch"
+    os.makedirs(os.path.join(VERIF, evdir), exist_ok=True)
+    with open(os.path.join(VERIF, evdir, ctx.pid + ".json"), "w") as handle:
         json.dump(evidence, handle, indent=1, default=str)
     print("%s %s seed=%d: obligations %d/%d, evaluations %d (distinct non-trivial %d), correspondence %d (disagree %d), %.1fs -> exit %d"
           % (ctx.pid, ctx.tier, ctx.seed, discharged, obligations, ctx.evaluations, len(ctx.nontrivial),
